@@ -203,6 +203,13 @@ def discharge(ctx, f, an, site):
                     v = shapes._ascii_off(("expr", an.rvalue_expr(st.rv, bb, i)), None)
                     if v is not None and v >= 0:
                         return ("lib", "hex::encode of a fixed-size array has a statically known length: the difference is %d" % v)
+                if st.rv.j["op"].startswith("Mul"):
+                    # a small constant times an in-memory length (2 hex digits per byte, ...): len <= isize::MAX
+                    es_ = [strip(an.operand_expr(o, bb, i)) for o in st.rv.ops]
+                    cs_ = [shapes.fold_const(x) for x in es_]
+                    ls_ = [x for x, c_ in zip(es_, cs_) if c_ is None]
+                    if len(ls_) == 1 and any(c_ is not None and 0 <= c_ <= 2 for c_ in cs_) and ls_[0].k == "call" and ls_[0].a[0].name == "len" and ls_[0].a[0].krate in ("core", "alloc", "std", "bytes"):
+                        return ("lib", "at most 2 x the length of an in-memory slice (<= isize::MAX) cannot overflow usize")
                 if st.rv.j["op"].startswith("Add"):
                     # sums of in-memory lengths and small constants cannot overflow usize
                     def lengthy(o):
@@ -214,8 +221,16 @@ def discharge(ctx, f, an, site):
                     def lengthy_e(e2):
                         e2 = strip(e2)
                         c2 = const_int(e2)
+                        if c2 is None:
+                            c2 = shapes.fold_const(e2)
                         if c2 is not None:
                             return 0 <= c2 < 2**32
+                        # 2 * len(bytes): the size of a hex rendering
+                        if e2.k == "field" and e2.a[1] == "0" and e2.a[0].k == "binop" and e2.a[0].a[0].startswith("Mul"):
+                            ops_ = [strip(e2.a[0].a[1]), strip(e2.a[0].a[2])]
+                            cs_ = [shapes.fold_const(x) for x in ops_]
+                            rest_ = [x for x, c_ in zip(ops_, cs_) if c_ is None]
+                            return len(rest_) == 1 and any(c_ is not None and 0 <= c_ <= 2 for c_ in cs_) and rest_[0].k == "call" and rest_[0].a[0].name == "len"
                         if e2.k == "field" and e2.a[1] == "0" and e2.a[0].k == "binop" and e2.a[0].a[0].startswith("Add"):
                             return all(lengthy_e(x) for x in (e2.a[0].a[1], e2.a[0].a[2]))
                         if e2.k == "field" and e2.a[1] == "payload_length" and header_source(e2.a[0])[0] is not None:
@@ -365,6 +380,26 @@ def discharge(ctx, f, an, site):
     return None
 
 
+def inv_row_applies(ctx, f, an, site, row):
+    """an `inv` row discharges exactly the expression it was written for:
+       Enr::get:        Header::decode(&mut raw).expect(..) with raw a stored value (INV-RLP: any single well-formed item) -
+                        a stricter reader (decode_bytes(.., false), a typed decode) can fail on valid stored items;
+       Enr::public_key: K::enr_to_public(&self.content).expect(..) (INV-PK)"""
+    t = site["term"]
+    bb = site["bb"]
+    if not t.args:
+        return False
+    x = strip(an.operand_expr(t.args[0], bb, len(f.blocks[bb].stmts)))
+    if row[0].endswith("::get"):
+        if not (x.k == "call" and x.a[0].name == "decode" and "alloy_rlp::Header" in x.a[0].fn and x.a[1]):
+            return False
+        return True
+    if row[0].endswith("::public_key"):
+        return x.k == "call" and x.a[0].name == "enr_to_public" and (x.a[0].trait or "").endswith("EnrKey") and x.a[1] and \
+            strip(x.a[1][0]).k == "field" and strip(x.a[1][0]).a[1] == "content" and strip(strip(x.a[1][0]).a[0]).k == "param"
+    return True
+
+
 def header_source(e):
     """(Header::decode call, reached through expect/unwrap?) for a header value"""
     es = strip(e)
@@ -459,6 +494,10 @@ def run(ctx, report):
                 if r[0] in f.path and r[1] in what:
                     row = r
                     break
+            if row is not None and row[2] == "inv" and not inv_row_applies(ctx, f, an, s, row):
+                report.violate("PANIC", key, "the triaged invariant (%s) does not cover this site any more: `%s` in %s is applied to something else than what the invariant guarantees" % (row[3].split(":")[0], short_what, short_fn(f)),
+                               fn=f.path, sp=s["sp"], config=cfg)
+                continue
             if row is not None:
                 used_rows[row] = used_rows.get(row, 0) + 1
                 if used_rows[row] > row[4] * 1:
